@@ -216,6 +216,25 @@ def generate(ctx):
                     labs = []
                 d = dt if rng.random() < 0.8 else rng.choice(['int64', '<U5'])
                 series.append({'labels': labs, 'dtype': d, 'values': [_tame(V.element(d, rng)) for _ in labs]})
+            if not lead_empty_s and rng.random() < 0.3:
+                # hierarchical labels (depth 2): the set operation on hierarchies may return the labels in another order than
+                # any input holds them, also when the first input already holds every label
+                ctx.tally('workload', 'series_overlay_hierarchical')
+                if rng.random() < 0.5 and len(series) > 1:
+                    series[0]['labels'] = list(base) + [x for s_ in series[1:] for x in s_['labels'] if x not in base][:1]
+                    series[0]['labels'] = list(dict.fromkeys(series[0]['labels'] + [x for s_ in series[1:] for x in s_['labels']]))
+                    rng.shuffle(series[0]['labels'])
+                    series[0]['values'] = [_tame(V.element(series[0]['dtype'], rng)) for _ in series[0]['labels']]
+                outer = rng.choice([1, 2, 3])
+                for s_ in series:
+                    tl = [('xyz'[_ROWS.index(x) % outer], x) for x in s_['labels']]
+                    first = {}
+                    for t in tl:
+                        first.setdefault(t[0], len(first))
+                    order = sorted(range(len(tl)), key=lambda j: first[tl[j][0]])  # from_labels wants each outer label contiguous
+                    s_['labels'] = [tl[j] for j in order]
+                    s_['values'] = [s_['values'][j] for j in order]
+                    s_['hier'] = True
             case['series'] = series
             case['union'] = rng.random() < 0.7
         yield case
@@ -283,6 +302,8 @@ def _go_independence(case, ctx):
 
 def _build_series(d, name=None):
     import static_frame as sf
+    if d.get('hier'):
+        return sf.Series(V.to_array(d['values'], d['dtype']), index=sf.IndexHierarchy.from_labels(d['labels']), name=name)
     return sf.Series(V.to_array(d['values'], d['dtype']), index=sf.Index(d['labels']) if d['labels'] else sf.Index((), dtype='<U1'), name=name)
 
 
